@@ -46,6 +46,53 @@ META.update({
  "C20-syncbufreader": ("C20", "sync DecodeResponseIter wraps its reader in a BufReader", "reader lent by &mut with more bytes after the response"),
 })
 
+META.update({
+ "C01b-1": ("C01", "sync decoder yields the whole decode buffer instead of the slice that was read", "decoder built with new_with_buffer on a recycled non-empty buffer longer than the first leaf"),
+ "C01b-2": ("C01", "fsm decoder skips the pair check when the left half is not descended into", "async decoder, query selecting nothing in the left half of some subtree, tampered pair on that path"),
+ "C02b-1": ("C02", "read_parent fills its buffer with a hand-written loop that always reads into the start", "a Read returning short reads with a fragment boundary inside a hash pair"),
+ "C02b-2": ("C02", "the sync decoder's leaf buffer is only grown, never shrunk", "new_with_buffer with a non-empty buffer and a first leaf shorter than it"),
+ "C03b-1": ("C03", "create() rewinds/reads relative to the handle's current position: a second create from the same handle sees an empty blob", "two outboards created from one handle, or a handle not at position 0"),
+ "C03b-2": ("C03", "single-group fast path hashes everything the reader holds instead of tree.size bytes", "tree of exactly one chunk group and a reader holding more bytes than the size"),
+ "C05b-1": ("C05", "sync validating encoder does not compare the root node's stored pair", "corruption inside the root pair of the store"),
+ "C05b-2": ("C05", "item-stream validating encoder skips the pair check when both halves are descended into", "experimental-mixed traversal, corrupted upper-level pair on a two-sided node"),
+ "C06b-1": ("C06", "data validator splits the query at the shifted node's midpoint", "block size > 0 and a query other than all chunks"),
+ "C06b-2": ("C06", "data validator reads a group with a single short read into a reused buffer", "data file shorter than the blob, content repeating from group to group"),
+ "C07b-1": ("C07", "io-backed PostOrderOutboard saves a pair with one write_at and drops the count", "sync decode into PostOrderOutboard over a WriteAt store that takes fewer than 64 bytes per call"),
+ "C07b-2": ("C07", "fsm decode_ranges swallows InvalidInput errors from outboard.save", "async decode_ranges, k-th save fails with kind InvalidInput for a pair not yet stored"),
+ "C12b-1": ("C12", "count_below isolates the lowest bit with an i32 shift", "a node of level >= 31 (blob of at least 2^32 chunk groups)"),
+ "C12b-2": ("C12", "pre_order_offset_loop climbs at most 32 levels", "a tree whose root level exceeds 32"),
+ "C15b-1": ("C15", "the size of a query leaf is taken from the shifted node", "block size > 0, min level > block size, fully covered subtree between the two levels"),
+ "C15b-2": ("C15", "the empty-query guard also returns an empty plan for empty blobs", "blob size exactly 0 with a non-empty query"),
+})
+
+META.update({
+ "C04c-1": ("C04", "sync encode_ranges fills a leaf with a hand-written read_at loop that never advances the read position", "non-validating sync encoder over a ReadAt source returning short reads inside a leaf"),
+ "C04c-2": ("C04", "fsm encode_ranges splits the query at tree.chunks() (parts behind the end no longer select the last chunk)", "async non-validating encoder, query reaching the last chunk only through a part at / behind the end"),
+ "C08c-1": ("C08", "item-stream traversal emits a Parent for unselected subtrees inside a partially selected group", "experimental-mixed, block size >= 2, query cutting through a group leaving an aligned unselected subtree of >= 2 chunks"),
+ "C08c-2": ("C08", "sync CreateOutboard::create hashes from the handle's current position to the end", "a handle not at position 0 (header read before, second create on the same handle)"),
+ "C09c-1": ("C09", "sync decoder reads a leaf with one read() and reports LeafNotFound on a short count", "a Read returning fewer bytes than asked for while more follow"),
+ "C09c-2": ("C09", "sync decode_ranges loops with try_for_each through io::Error: every typed decode error comes back as DecodeError::Io", "a stream fault observed through sync::decode_ranges with the typed variant inspected"),
+ "C10c-1": ("C10", "sync valid_ranges treats UnexpectedEof from the data read as 'range not valid'", "sync data validator, failing data read of kind UnexpectedEof, tree of more than one block"),
+ "C10c-2": ("C10", "fsm encode_ranges maps the error of a helper that reads and writes a leaf with maybe_leaf_write", "async non-validating encoder, data read fails with ConnectionReset"),
+ "C11c-1": ("C11", "sync encoders read leaves through a retry helper that computes the position as offset + last count", "ReadAt data source delivering one leaf in three or more pieces"),
+ "C11c-2": ("C11", "sync decode_ranges wraps the reader in a BufReader (read-ahead dropped on return)", "further use of the same stream after decode_ranges over a transport whose reads cross the end of the response"),
+ "C13c-1": ("C13", "CreateOutboard::create restores the handle's position instead of rewinding: the outboard covers blob[pos..]", "Read + Seek handle whose position is not 0 (grow-by-append chain through one handle)"),
+ "C13c-2": ("C13", "outboard_post_order_impl writes a pair with one write() and drops the count", "a Write target returning short counts with a pair straddling its boundary"),
+ "C14c-1": ("C14", "query canonicalisation moved from DecodeResponseIter::new_with_buffer up into ::new", "decoder built with new_with_buffer, block size >= 1, non-canonical query reaching the end"),
+ "C14c-2": ("C14", "fsm validating encoder canonicalises the query against min(data size, tree size)", "provider holding only a group-aligned prefix of the blob with the complete outboard, query ending exactly at the end of the prefix"),
+ "C16c-1": ("C16", "sync decoder checks a hash pair only at or above the block level", "sync decoder, block size >= 1, wrong claimed size, query hitting the last chunk but not its whole group, padded / spliced stream"),
+ "C16c-2": ("C16", "fsm decoder validates a pair only when the left child is selected", "fsm decoder, claimed size of more than one chunk, query skipping the left half, padded / truncated / spliced stream"),
+ "C17c-1": ("C17", "chunk_group_start masks with a u32 complement zero-extended to u64", "range start with chunk number >= 2^32 (or ChunkNum(u64::MAX)..)"),
+ "C17c-2": ("C17", "round_up_to_chunks skips a range that starts inside the last covered chunk", "two closed byte ranges, the later starting inside the last chunk of the earlier and extending past it"),
+ "C18c-1": ("C18", "chunk_range computes the span with an i32 shift", "a node of level >= 31"),
+ "C18c-2": ("C18", "left_child / right_child share an offset helper with an i32 shift", "a node of level >= 32"),
+ "C19c-1": ("C19", "Leaf::offset serialised as a chunk count", "a Leaf whose offset is not a multiple of 1024"),
+ "C19c-2": ("C19", "io error deserialisation parses the kind from a table and drops it from the text when unknown", "an io error of a kind outside the table (StorageFull, IsADirectory, ...)"),
+ "C20c-1": ("C20", "fsm decoder replaces its iterator by an exhausted one over a placeholder tree after an error", "tree() called on the decoder handed back with an error item"),
+ "C20c-2": ("C20", "sync decoder only grows the leaf buffer and reads the whole buffer", "new_with_buffer with a non-empty buffer, a leaf shorter than it, trailing bytes on the stream"),
+ "C20c-3": ("C20", "the chunk iterator returns a placeholder-tree empty iterator for an empty query", "empty query, then tree() on the decoder"),
+})
+
 for sid, (prop, what, needs) in META.items():
     d = f"/verif/seeded/{sid}"
     if not os.path.isdir(d):
